@@ -1,3 +1,4 @@
+import os
 #!/usr/bin/env python3
 """Regenerates /verif/MANIFEST.json from the per-property check.json files.
 usage: mkmanifest.py C02 C03 ...   (the properties to register as checks; the rest of the claimed
@@ -28,7 +29,7 @@ na_reasons = {
  "C19": "VACUUM INTO, ordinal rewriting in SQL, POSIX byte-range locks",
  "C20": "a property of all schedules of tokio tasks, semaphores and channels; Kani has no concurrency model",
 }
-reg = sys.argv[1:]
+reg = sys.argv[1:] or sorted(d for d in os.listdir(os.path.join(os.path.dirname(os.path.dirname(os.path.abspath(__file__))), 'harness')))  # default: every harness crate
 props = [json.loads(l) for l in open(os.path.join(ROOT, "properties.jsonl"))]
 checks = []
 for pid in reg:
